@@ -17,11 +17,13 @@ echo "== suite with change" >> $LOG
 (cd $WT && cargo nextest run --workspace --no-fail-fast --offline 2>&1 | tail -4) >> $LOG
 SUITE=$(grep -c "168 passed" $LOG)
 echo "== demo with change" >> $LOG
-(cd $OUT/demo_$X && touch build.rs && cargo run --offline 2>&1 | tail -25; echo "exit=${PIPESTATUS[0]}") >> $LOG
+if [ -x $OUT/demo_$X/run.sh ]; then (cd $OUT/demo_$X && timeout 900 ./run.sh 2>&1 | tail -25; echo "exit=${PIPESTATUS[0]}") >> $LOG; else
+(cd $OUT/demo_$X && ( [ -f build.rs ] && touch build.rs; true ) && timeout 900 cargo run --offline 2>&1 | tail -25; echo "exit=${PIPESTATUS[0]}") >> $LOG; fi
 W=$(grep "^exit=" $LOG | tail -1)
 git -C $WT checkout -q -- .
 echo "== demo without change" >> $LOG
-(cd $OUT/demo_$X && touch build.rs && cargo run --offline 2>&1 | tail -8; echo "exit=${PIPESTATUS[0]}") >> $LOG
+if [ -x $OUT/demo_$X/run.sh ]; then (cd $OUT/demo_$X && timeout 900 ./run.sh 2>&1 | tail -8; echo "exit=${PIPESTATUS[0]}") >> $LOG; else
+(cd $OUT/demo_$X && ( [ -f build.rs ] && touch build.rs; true ) && timeout 900 cargo run --offline 2>&1 | tail -8; echo "exit=${PIPESTATUS[0]}") >> $LOG; fi
 WO=$(grep "^exit=" $LOG | tail -1)
 rm -rf $OUT/demo_$X/target
 cp -r $OUT/demo_$X $DST/demo
